@@ -23,6 +23,7 @@ def bases_arr(it, name="bases", rows="B"):
 def basis_str(it):
     u = VUnknown("basis", "str")
     u.not_none = True
+    u.length = "nv"  # one letter per site
     return u
 
 
